@@ -436,7 +436,7 @@ class FnExtractor:
                         continue
                     if src.endswith('!= 8'):
                         self.stmts(s.body, guards + ['Guard.notSpecial'])
-                        self.stmts(s.orelse, guards + ['Guard.cond'])
+                        self.stmts(s.orelse, guards + ['Guard.isSpecial'])
                         continue
                 if self.fn.name == '__exit__' and isinstance(s.test, ast.Name) and s.test.id == 'exc_type':
                     if self.variant == 'exc':
